@@ -137,7 +137,10 @@ def gen_ring(rng, resolved=True, kinds=None):
 
         if mode == "dpush":
             l = rng.choice(cands)
-            l["ads"].insert(effective_pos(l), ["dpush"])
+            pos = effective_pos(l)
+            l["ads"].insert(pos, ["dpush"])
+            if rng.random() < 0.4:
+                l["ads"].insert(pos, ["scale"])   # a pass-through adapter between the output and the DelayToPush
         else:
             extra = rng.choice([0, 0, 1, 3])
             parts = [total + extra]
